@@ -55,7 +55,7 @@ def watts(p):
 def run_history(case):
     """Drive the real Matryoshka; return targets after each event + final queries."""
     _, _, _, Matryoshka, _ = _imports()
-    m = Matryoshka(max_proposal_age=timedelta(seconds=MAX_AGE_S))
+    m = Matryoshka(max_proposal_age=timedelta(seconds=case.get("max_age8", 480) / 8.0))
     cur = mk_sys(case["sys"])
     targets = []
     for e in case["events"]:
@@ -90,7 +90,7 @@ def cur_sys(case):
     return s
 
 
-def live_proposals(events):
+def live_proposals(events, max_age8=480):
     """Latest proposal per (priority, source), minus those expired at an expiry event,
     plus whether a bucket exists (first accepted proposal)."""
     live = {}
@@ -98,7 +98,7 @@ def live_proposals(events):
         if e["t"] == "p":
             live[(e["prio"], e["src"])] = e
         elif e["t"] == "x":
-            for k in [k for k, p in live.items() if e["now"] / 8.0 - p["time"] / 8.0 > MAX_AGE_S]:
+            for k in [k for k, p in live.items() if e["now"] / 8.0 - p["time"] / 8.0 > max_age8 / 8.0]:
                 del live[k]
     return live
 
@@ -156,12 +156,12 @@ Definition optpair_eqb (a b : option Z * option Z) := optZ_eqb (fst a) (fst b) &
 Definition bnds_eqb (a b : option (Z * Z)) := opt_eqb (pair_eqb Z.eqb Z.eqb) a b.
 (* case: initial bounds, history, expected target after each call, queries
    (priority, expected reported bounds, [(power, expected adjust_to_bounds)]) *)
-Definition check (c : sysb * list mevent * list (option Z)
+Definition check (c : Z * sysb * list mevent * list (option Z)
                       * list (Z * option (Z * Z) * list (Z * (option Z * option Z)))) : bool :=
-  let '(s, h, exp, qs) := c in
+  let '(ma, s, h, exp, qs) := c in
   let st0 := mkM false [] s in
-  list_eqb optZ_eqb (mrun (60000000) st0 h) exp &&
-  let fin := mfinal (60000000) st0 h in
+  list_eqb optZ_eqb (mrun ma st0 h) exp &&
+  let fin := mfinal ma st0 h in
   forallb (fun q => let '(prio, eb, adj) := q in
              let rb := get_status_bounds (m_sys fin) (m_bucket fin) prio in
              bnds_eqb rb eb &&
@@ -178,7 +178,7 @@ def case_term(case, obs):
         b = "None" if st["bounds"] is None else f"(Some ({cZ(st['bounds'][0])}, {cZ(st['bounds'][1])}))"
         adj = "[" + "; ".join(f"({cZ(v)}, ({copt(a[0])}, {copt(a[1])}))" for v, a in zip(case.get("adjust", []), st["adjust"])) + "]"
         qs.append(f"({cZ(st['prio'])}, {b}, {adj})")
-    return f"({c_sys(case['sys'])}, {ev}, {exp}, [{'; '.join(qs)}])"
+    return f"({cZ(case.get('max_age8', 480) * 125000)}, {c_sys(case['sys'])}, {ev}, {exp}, [{'; '.join(qs)}])"
 
 
 # ----------------------------------------------------------------------------- generation
@@ -213,6 +213,11 @@ def gen_prop(rng, nsrc, now):
 
 def gen_case(rng, maxlen=8):
     case = {"sys": gen_sys(rng), "events": []}
+    # the maximum proposal age is a constructor argument: mostly the actor's 60 s, sometimes
+    # sub-second, fractional, a day or more (timedelta components: days / seconds / microseconds)
+    ma = rng.choice([480] * 6 + [4, 724, 8 * 86400, 8 * 90000, 8 * 3600 * 49])
+    if ma != 480:
+        case["max_age8"] = ma
     now = rng.randrange(0, 80)  # in 1/8 s
     nsrc = rng.randint(1, 5)
     for _ in range(rng.randint(1, maxlen)):
@@ -224,7 +229,8 @@ def gen_case(rng, maxlen=8):
         else:
             case["events"].append({"t": "b", "sys": gen_sys(rng)})
         # time steps: usually small, sometimes around the 60 s limit (480 eighths), sometimes beyond
-        now += rng.choice([0, 1, 8, 8, 80, 239, 240, 241, 479, 480, 481, 500, 1000])
+        ma8 = case.get("max_age8", 480)
+        now += rng.choice([0, 1, 8, 8, 80, ma8 // 2 - 1, ma8 // 2, ma8 // 2 + 1, ma8 - 1, ma8, ma8 + 1, ma8 + 20, 2 * ma8 + 40])
     prios = sorted({e["prio"] for e in case["events"] if e["t"] == "p"} | {rng.choice([-3, 0, 1, 2, 5, 9])})
     case["prios"] = prios
     case["adjust"] = rng.sample(GRID, 4)
@@ -288,7 +294,7 @@ class MatStream(Stream):
     def show_term(self, case, obs):
         rank = src_rank(case)
         ev = "[" + "; ".join(c_event(e, rank) for e in case["events"]) + "]"
-        return f"mrun (60000000) (mkM false [] {c_sys(case['sys'])}) {ev}"
+        return f"mrun {cZ(case.get('max_age8', 480) * 125000)} (mkM false [] {c_sys(case['sys'])}) {ev}"
 
     def shrink(self, case):
         return shrink_case(case)
@@ -310,7 +316,7 @@ class MatStream(Stream):
             out.append("no_inclusion_bounds")
         if any(t not in (None, 0) for t in obs["targets"]):
             out.append("nonzero_target")
-        live = live_proposals(case["events"])
+        live = live_proposals(case["events"], case.get("max_age8", 480))
         npro = sum(1 for e in case["events"] if e["t"] == "p")
         if len(live) < npro:
             out.append("replaced_or_expired")
